@@ -2,6 +2,7 @@ package main
 
 import (
 	"encoding/gob"
+	"errors"
 	"fmt"
 	"io"
 	"math/rand"
@@ -12,6 +13,7 @@ import (
 	"sort"
 	"strconv"
 	"sync"
+	"sync/atomic"
 	"syscall"
 
 	"github.com/biogo/biogo/morass"
@@ -359,4 +361,18 @@ func c11NewSorter(h c11Hist, scratch string, known []string) (*morass.Morass, st
 		return m, fresh[0], nil
 	}
 	return m, "", nil
+}
+
+// c11FailWriter stands in for a run file: its n-th Write (counted over all run files of the cycle) fails.
+type c11FailWriter struct {
+	f      *os.File
+	n      *int64
+	failAt int64
+}
+
+func (w c11FailWriter) Write(p []byte) (int, error) {
+	if atomic.AddInt64(w.n, 1) == w.failAt {
+		return 0, errors.New("harness: injected write failure")
+	}
+	return w.f.Write(p)
 }
